@@ -166,6 +166,50 @@ def main():
             t = f"({t} {opnames[i - 1]} x{i + 1})"
         return t
 
+    INT_OPS = {"+", "-", "*", "/", "%", "**", "&", "|"}
+    CMP_OPS = {"<", "<=", ">", ">="}
+    FLT_OPS = {"+.", "-.", "*.", "/."}
+    BOOL_OPS = {"&&", "||"}
+
+    def value_replay(opn):
+        """Evaluate `x1 op1 x2 ...` and its explicit left-associative parenthesisation natively on several operand
+        assignments that are well-typed under the left-associative reading."""
+        pools = {"Int": [["7", "3", "2", "5", "1", "4"], ["100", "7", "3", "2", "9", "5"], ["2", "3", "2", "3", "2", "3"]],
+                 "Float": [["7.5", "2.0", "0.5", "4.0", "1.5", "3.0"], ["1.0", "3.0", "7.0", "2.0", "5.0", "0.25"]],
+                 "Bool": [["True", "False", "False", "True", "False", "True"], ["False", "True", "True", "False", "True", "False"],
+                          ["True", "True", "False", "False", "True", "False"]],
+                 "String": [['"a"', '"b"', '"c"', '"d"', '"e"', '"f"']]}
+        # operand types under the left-associative reading
+        first = opn[0]
+        cur = "Int" if first in INT_OPS | CMP_OPS | {"==", "!="} else "Float" if first in FLT_OPS else "Bool" if first in BOOL_OPS else "String"
+        types = [cur]
+        for o in opn:
+            need = "Int" if o in INT_OPS | CMP_OPS else "Float" if o in FLT_OPS else "Bool" if o in BOOL_OPS else "String" if o == "^" else cur
+            if need != cur:
+                return None
+            types.append(need)
+            cur = "Bool" if o in CMP_OPS | BOOL_OPS | {"==", "!="} else need
+        out = {"differs": False, "runs": []}
+        for variant in range(3):
+            operands = []
+            for i, t in enumerate(types):
+                pool = pools[t][variant % len(pools[t])]
+                operands.append(pool[i % len(pool)])
+            chain = " ".join(x for j in range(len(operands)) for x in ([operands[j]] + ([opn[j]] if j < len(opn) else [])))
+            paren = operands[0]
+            for j, o in enumerate(opn):
+                paren = f"({paren} {o} {operands[j + 1]})"
+            r1 = native.run_c(f"println(string_repr({chain}))")
+            r2 = native.run_c(f"println(string_repr({paren}))")
+            a = (r1[1].strip() or r1[2].strip().splitlines()[:1])
+            b = (r2[1].strip() or r2[2].strip().splitlines()[:1])
+            out["runs"].append({"chain": chain, "value": str(a)[:60], "left_assoc_value": str(b)[:60]})
+            if a != b:
+                out["differs"] = True
+                break
+        return out
+
+    wrong = []
     for k in range(2, max_k + 1):
         optable = list(ops.keys()) if k <= full_k else small_ops
         res = explore(lambda ctx: run_chain(ctx, k, optable), max_paths=300000)
@@ -177,7 +221,17 @@ def main():
                 src = " ".join(x for j in range(k) for x in ([f"x{j + 1}"] + ([opn[j]] if j < k - 1 else []))) + "\n"
                 shape, code, err = native_ast_shape(src)
                 want = expected(k, [ops[o] for o in opn])
-                return {"reproduced": shape != want, "artefact": {"source": src.strip()}, "detail": f"parsed as {shape}, left-associative is {want}"}
+                if shape == want:
+                    return {"reproduced": False, "artefact": {"source": src.strip()}, "detail": f"real parser gives {shape}"}
+                # The property is about evaluation: a regrouping that no operand values can observe (e.g. of an
+                # associative operator) does not violate it.  Look for operands on which the chain's value differs
+                # from the explicitly parenthesised left-associative reading.
+                vals = value_replay(opn)
+                if vals is None:
+                    return {"reproduced": True, "artefact": {"source": src.strip()},
+                            "detail": f"parsed as {shape}, left-associative is {want} (no well-typed operands to compare values)"}
+                return {"reproduced": vals["differs"], "artefact": {"source": src.strip(), "values": vals},
+                        "detail": f"parsed as {shape}, left-associative is {want}; chain vs parenthesised values: {vals}"}
             if r.kind == "panic":
                 C.prove(f"k{k}/path{i}:no-panic", r.pc, False, site=f"infix-loop/panic/{r.value.kind}", what=f"parse_expression panics: {r.value}",
                         replay=replay)
@@ -198,12 +252,38 @@ def main():
             m = s.model()
             opn = [ops[optable[m.eval(ov, model_completion=True).as_long()]] for ov in v["opvars"]]
             want = expected(k, opn)
-            C.prove(f"k{k}/path{i}:left-associative", r.pc, got == want and v["diags"] == 0, site=f"infix-loop/grouping/{k}-operands",
-                    what=f"a chain of {k} operands parses as {got} instead of {want}", replay=replay,
-                    model_desc=lambda m, got=got, want=want: {"parsed": got, "left_associative": want})
+            okp = got == want and v["diags"] == 0
+            if okp:
+                C.prove(f"k{k}/path{i}:left-associative", r.pc, True, site=f"infix-loop/grouping/{k}-operands")
+            else:
+                # a wrong tree: candidates are replayed below until one is observable in values (a regrouping of an
+                # associative operator is not)
+                wrong.append((k, i, r.pc, got, want, m, replay))
             if i == 0:
                 C.sample({"operands": k, "parsed": got, "left_associative": want})
         C.reach(f"k{k}/parse-returns", [z3.BoolVal(n_ok > 0)])
+
+    by_k = {}
+    for item in wrong:
+        by_k.setdefault(item[0], []).append(item)
+    for k, items in by_k.items():
+        verdict = None
+        tried = 0
+        for (_, i, pc, got, want, m, replay) in items[:60]:
+            tried += 1
+            rep = replay(m)
+            if rep.get("reproduced"):
+                verdict = (i, pc, got, want, rep)
+                break
+            last = (i, pc, got, want, rep)
+        if verdict is None:
+            i, pc, got, want, rep = last
+        else:
+            i, pc, got, want, rep = verdict
+        C.replays += tried
+        C.prove(f"k{k}/path{i}:left-associative", pc, False, site=f"infix-loop/grouping/{k}-operands",
+                what=f"a chain of {k} operands parses as {got} instead of {want} ({len(items)} operator assignments affected)",
+                replay=lambda mm, rep=rep: rep, model_desc=lambda mm, got=got, want=want: {"parsed": got, "left_associative": want})
 
     # translator validation: the abstraction and the tree reader against the real parser
     for src, want in (("a + b\n", "(a Add b)"), ("a - b * c\n", "((a Subtract b) Multiply c)"), ("(a - b) - c\n", None), ("f(x) + y.z\n", None)):
